@@ -91,7 +91,10 @@ func (p *probe) Enter(req int64, rule string) {
 	p.events = append(p.events, pEvent{Seq: len(p.events), Kind: "enter", Req: req, Rule: rule})
 	p.mu.Unlock()
 }
-func (p *probe) Mid(req int64, rule string) { p.rec("mid", req, rule) }
+func (p *probe) Mid(req int64, rule string) {
+	p.rec("mid", req, rule)
+	p.Hold(req, rule+"@mid") // a second gate between the write and the read of the rule's local (C15)
+}
 func (p *probe) Exit(req int64, rule string) {
 	p.mu.Lock()
 	p.inside--
